@@ -92,6 +92,8 @@ Pos(e) == LET J == {j \in DOMAIN msgs : SameKey(msgs[j], e)}
 
 \* [n |-> acting node, r |-> [s, out], rest |-> remaining bag] ; n = "-": no prediction
 NoPred == [n |-> NoNode, r |-> R(NodeZero, <<>>), rest |-> msgs]
+\* the one operation that changes a second node: a retrieval also updates the serving node A
+Second(e) == IF e.op = "retrieve" /\ ~e.err /\ CanRetrieve(ns[e.n], e.n, e.c) THEN "A" ELSE NoNode
 Pred(e) ==
   CASE e.op = "init" -> [n |-> e.n, r |-> InitCall(ns[e.n], e.n, par), rest |-> msgs]
     [] e.op = "tick" -> [n |-> e.n, r |-> LoopTop(ns[e.n], e.n, par), rest |-> msgs]
@@ -99,6 +101,7 @@ Pred(e) ==
     [] e.op = "deldisc" -> [n |-> e.n, r |-> R(IF Has(e, "blocked") THEN AsyncDelDiscover(ns[e.n]) ELSE DelDiscover(ns[e.n]), <<>>), rest |-> msgs]
     [] e.op = "delfile" -> [n |-> e.n, r |-> R(IF Has(e, "blocked") THEN AsyncDelFile(ns[e.n]) ELSE DelFile(ns[e.n]), <<>>), rest |-> msgs]
     [] e.op = "release" -> [n |-> e.n, r |-> Release(ns[e.n], e.n, par), rest |-> msgs]
+    [] e.op = "retrieve" -> [n |-> e.n, r |-> R(IF ~e.err /\ CanRetrieve(ns[e.n], e.n, e.c) THEN Retrieved(ns[e.n], e.n, e.c) ELSE ns[e.n], <<>>), rest |-> msgs]
     [] e.op = "timeout" -> [n |-> e.n, r |-> R(IF e.o \in ns[e.n].trig THEN Timeout(ns[e.n], e.o) ELSE ns[e.n], <<>>), rest |-> msgs]
     [] e.op \in {"deliver", "dup", "drop", "park"} ->
          LET i == Pos(e) IN
@@ -193,7 +196,8 @@ DriftNotes(e, p) ==
   IF p.n = NoNode THEN (IF e.op \in {"inject", "reset", "crash"} THEN <<>> ELSE <<"drift:no_prediction@" \o e.op>>)
   ELSE LET others == Real \ {p.n}
            dn == Diff(p.r.s, ObsNode(e.st[p.n], p.n, p.r.s))
-           od == {n \in others : Diff(ns[n], ObsNode(e.st[n], n, ns[n])) # <<>>}
+           exp(n) == IF n = Second(e) THEN Served(ns[n], e.n, e.c) ELSE ns[n]
+           od == {n \in others : Diff(exp(n), ObsNode(e.st[n], n, exp(n))) # <<>>}
        IN [i \in DOMAIN dn |-> "drift:" \o dn[i] \o "@" \o e.op]
           \o (IF od = {} THEN <<>> ELSE <<"drift:bystander_changed@" \o e.op>>)
           \o (IF SameBag(p.rest \o p.r.out, ObsMsgs(e)) THEN <<>> ELSE <<"drift:messages@" \o e.op>>)
